@@ -164,6 +164,9 @@ type HarnessResult struct {
 	Funcs       []string          `json:"functions_encoded,omitempty"`
 	Stubs       []string          `json:"stubs_used,omitempty"`
 	EngineErr   string            `json:"engine_error,omitempty"`
+	Out         map[string]int    `json:"out,omitempty"`
+	SampleTape  []TapeEntry       `json:"sample_tape,omitempty"`
+	SamplePC    string            `json:"sample_pc,omitempty"`
 }
 
 func (w *World) newInterp(ex *Explorer, pkg *ssa.Package) *Interp {
@@ -207,10 +210,10 @@ func (in *Interp) initPackage(pkg *ssa.Package) {
 	}()
 }
 
-func runHarness(w *World, solver *Solver, pkgName, harness string, params map[string]int, open map[string]bool, maxPaths int) *HarnessResult {
+func runHarness(w *World, solver *Solver, pkgName, harness string, params map[string]int, open map[string]bool, maxPaths int) (res *HarnessResult) {
 	t0 := time.Now()
 	pkg := w.pkgs[pkgName]
-	res := &HarnessResult{Harness: pkgName + "." + harness, Params: params}
+	res = &HarnessResult{Harness: pkgName + "." + harness, Params: params}
 	if pkg == nil {
 		res.EngineErr = "no harness package " + pkgName
 		return res
@@ -280,8 +283,28 @@ func runHarness(w *World, solver *Solver, pkgName, harness string, params map[st
 					}
 				}
 			}()
+			a0 := ex.Asserts
 			in.call(fn, nil, nil, nil)
 			ex.PathsDone++
+			if ex.sampleTape == nil || ex.Asserts-a0 > ex.sampleScore {
+				ex.sampleScore = ex.Asserts - a0
+				ex.sampleTape = ex.tape()
+				if ex.sampleTape == nil {
+					ex.sampleTape = []TapeEntry{}
+				}
+				var sb strings.Builder
+				for i, e := range ex.pc {
+					if i >= 6 || sb.Len() > 600 {
+						sb.WriteString(fmt.Sprintf(" ∧ … (%d conjuncts)", len(ex.pc)))
+						break
+					}
+					if i > 0 {
+						sb.WriteString(" ∧ ")
+					}
+					sb.WriteString(Describe(e.term, 160))
+				}
+				ex.samplePC = sb.String()
+			}
 		}()
 		if maxPaths > 0 && ex.Paths >= maxPaths {
 			ex.Samples = append(ex.Samples, fmt.Sprintf("path limit %d reached", maxPaths))
@@ -315,6 +338,9 @@ func fillResult(res *HarnessResult, in *Interp, ex *Explorer, solver *Solver, ba
 	res.Shared = ex.shareWrites
 	res.Samples = ex.Samples
 	res.Steps = in.steps
+	res.Out = ex.Out
+	res.SampleTape = ex.sampleTape
+	res.SamplePC = ex.samplePC
 	s := solver.Stats
 	res.Solver = SolverStats{Queries: s.Queries - base.Queries, Sat: s.Sat - base.Sat, Unsat: s.Unsat - base.Unsat,
 		Unknown: s.Unknown - base.Unknown, Errors: s.Errors - base.Errors, Seconds: s.Seconds - base.Seconds,
@@ -331,15 +357,22 @@ func fillResult(res *HarnessResult, in *Interp, ex *Explorer, solver *Solver, ba
 }
 
 func main() {
-	if len(os.Args) > 1 && os.Args[1] == "check" {
-		os.Exit(checkMain(os.Args[2:]))
+	if len(os.Args) > 1 {
+		switch os.Args[1] {
+		case "check":
+			os.Exit(checkMain(os.Args[2:]))
+		case "worker":
+			os.Exit(workerMain())
+		case "selftest":
+			os.Exit(selftestMain(os.Args[2:]))
+		}
 	}
 	var params multiFlag
 	harness := flag.String("harness", "", "pkg.Func")
 	flag.Var(&params, "p", "name=value parameter")
 	timeout := flag.Int("timeout", 60000, "solver timeout ms")
 	maxPaths := flag.Int("maxpaths", 0, "path limit")
-	solverBin := flag.String("solver", "z3", "solver binary")
+	solverBin := flag.String("solver", "z3-new", "solver binary")
 	flag.Parse()
 	pm := map[string]int{}
 	for _, p := range params {
@@ -352,9 +385,10 @@ func main() {
 	solver := NewSolver([]string{*solverBin, "-in"}, *timeout)
 	defer solver.Close()
 	res := runHarness(w, solver, parts[0], parts[1], pm, map[string]bool{}, *maxPaths)
-	out, _ := json.MarshalIndent(res, "", " ")
+	out, jerr := json.MarshalIndent(res, "", " ")
+	if jerr != nil {
+		fmt.Fprintln(os.Stderr, "json:", jerr)
+	}
 	fmt.Println(string(out))
 	fmt.Fprintf(os.Stderr, "load %.2fs build %.2fs\n", w.loadS, w.buildS)
 }
-
-func checkMain(args []string) int { return 2 }
